@@ -340,7 +340,11 @@ def run_k3(ctx, p):
         ok = jump <= eps / D * (1 + 1e-6) + 1e-13 * tscale + slack
         ctx.observe("continuity", name, ok and np.isfinite(jump), branch=k + " " + br, measure=jump, tol=eps / D,
                     detail=dict(R=R, x_d=p["x_d"], D=D, first_point=P[keep][0].tolist()))
-    for q in list(box[:4]) + list(near_anti[2::3][:2]):
+    # the axis behind the obstacle (antipodal to the detonator) is a kink of the exact field - the fronts that went round
+    # the obstacle on all sides meet there - and the documented arccos is ill-conditioned next to it: the eikonal
+    # equation is probed 20 stencil steps (2e-3 r) away from it, where the field is smooth and well-conditioned (the error
+    # bar flags most stencils that contain the kink, but not one that touches it with its last point)
+    for q in list(box[:4]) + [-ed * r + w * r * 2e-3 for r in rad[1:3]]:
         eikonal(ctx, s, name, q, D, 1e-4 * R, br)
 
 
